@@ -80,7 +80,8 @@ def streams_for(prop):
         import ref_export
         S.append(dict(name="export", gen=gen_export.gen_export, impl=impl_export.run, oracle=ref_export.check_export,
                       always_oracle=True))
-        S.append(dict(name="defs", gen=gen_build.gen_defs, impl=impl_build.run, oracle=None))
+        import ref_build
+        S.append(dict(name="defs", gen=gen_build.gen_defs, impl=impl_build.run, oracle=ref_build.check_defs, always_oracle=True))
     elif prop == "C20":
         import gen_export
         import impl_export
